@@ -204,6 +204,21 @@ Example C05s_ic_sisb_rejects :
   ic_sis_rhob [0;1;2]%N (Some (1#2)) 0 [(0, [1;2]%Z)] None = true.
 Proof. vm_compute. repeat split. Qed.
 
+(* the domain clause tmin < tmax is needed: myQueue.add drops every event at or after tmax,
+   the initial infections included, and the code then drops |I0| rows from the one-row arrays:
+   with tmin = tmax the simulators return EMPTY arrays (no row 0 at all; Gillespie_SIS returns
+   the row (tmin, N-|I0|, |I0|) there).  Same with duplicates in initial_infecteds: one row too
+   many is dropped and row 0 is gone *)
+Example C05s_domain_tmin_before_tmax_and_distinct_nodes_needed :
+  (match exec (fast_SIS gp 2 1 (Some 5) (Some [0%N]) None 5 false 100) script3 [] with (Ok o, tr) => so_rows o = [] /\ tr = [] | _ => False end) /\
+  (match nm_run gp durS delS (Some 5) 5 false 100 [0%N] with Ok o => so_rows o = [] | _ => False end) /\
+  ic_sis_domb (gnodes gp) [0%N] 5 (Some 5) = false /\
+  (match nm_run gp durS delS (Some 1) 0 false 100 [0%N; 0%N] with
+   | Ok o => ic_sisb (gnodes gp) [0%N; 0%N] 0 (so_rows o) (so_full o) = false /\ map (fun r : row => Qred (fst r)) (firstn 1 (so_rows o)) = [1#8]
+   | _ => False end) /\
+  ic_sis_domb (gnodes gp) [0%N; 0%N] 0 (Some 1) = false.
+Proof. vm_compute. repeat split. Qed.
+
 Example C05s_argument_examples :
   fast_SIS_arg gp 2 1 (Some 2) (IOne 1%N) None 0 false 100 = fast_SIS gp 2 1 (Some 2) (Some [1%N]) None 0 false 100 /\
   fast_SIS_arg gp 2 1 (Some 2) (IOne 7%N) None 0 false 100 = Fail TypeErr /\
@@ -226,4 +241,5 @@ Print Assumptions C05s_fast_SIS_rho_example.
 Print Assumptions C05s_fast_nonMarkov_SIS_example.
 Print Assumptions C05s_zero_delay_tie_example.
 Print Assumptions C05s_ic_sisb_rejects.
+Print Assumptions C05s_domain_tmin_before_tmax_and_distinct_nodes_needed.
 Print Assumptions C05s_argument_examples.
